@@ -91,6 +91,24 @@ func c12Seq(o *out, c hcfg, vs []int64) {
 	o.printf("\n")
 }
 
+// c12Corrected: a sequence of RecordCorrectedValue(v, e) calls on a fresh histogram
+func c12Corrected(o *out, c hcfg, ops [][2]int64) {
+	h := hdrhist.New(c.lo, c.hi, c.s)
+	o.printf("K %d %d %d %d", c.lo, c.hi, c.s, len(ops))
+	for _, op := range ops {
+		o.printf(" %d %d", op[0], op[1])
+	}
+	for _, op := range ops {
+		o.printf(" %d", b2i(h.RecordCorrectedValue(op[0], op[1]) == nil))
+	}
+	bars := h.Distribution()
+	o.printf(" %d %d", h.TotalCount(), len(bars))
+	for _, b := range bars {
+		o.printf(" %d %d %d", b.From, b.To, b.Count)
+	}
+	o.printf("\n")
+}
+
 // boundary values of a configuration: around every bucket and sub-bucket edge
 func c12Boundaries(r *rng, c hcfg, g hdrhist.VerifGeometry, n int) []int64 {
 	vs := []int64{0, 1, c.lo, c.lo - 1, c.lo + 1, c.hi, c.hi - 1, c.hi + 1, c.hi / 2}
@@ -252,6 +270,38 @@ func init() {
 				sort.Slice(vs, func(a, b int) bool { return vs[a] < vs[b] })
 			}
 			c12Seq(o, c, vs)
+		}
+		// 4. RecordCorrectedValue: expected intervals that divide the value exactly, by one more and by one less, zero and
+		//    negative intervals, values equal to the interval, above the range and negative
+		ncorr := 150
+		if thorough {
+			ncorr = 3000
+		}
+		for i := 0; i < ncorr; i++ {
+			c := hcfg{int64(r.intn(4)), int64(10 + r.intn(3000)), 1 + r.intn(2)}
+			ops := make([][2]int64, 1+r.intn(6))
+			for j := range ops {
+				e := 1 + r.i64n(c.hi/2+1)
+				v := r.i64n(c.hi + 1)
+				switch r.intn(10) {
+				case 0, 1, 2:
+					v = e * (1 + r.i64n(c.hi/e+1)) // an exact multiple (possibly just above the range)
+				case 3:
+					v = e*(1+r.i64n(c.hi/e+1)) + 1
+				case 4:
+					v = e*(1+r.i64n(c.hi/e+1)) - 1
+				case 5:
+					e = []int64{0, -1, -250}[r.intn(3)]
+				case 6:
+					v = e
+				case 7:
+					v = c.hi + 1 + r.i64n(4*c.hi)
+				case 8:
+					v = -1 - r.i64n(50)
+				}
+				ops[j] = [2]int64{v, e}
+			}
+			c12Corrected(o, c, ops)
 		}
 		fmt.Println("c12 cases written")
 		return o.close()
